@@ -187,14 +187,14 @@ def finishAttr (key : Option Str) (startIdx : Nat) (root : Frame) : Attr :=
 
 /-- after a frame was closed or a simple value completed: continue the container loop, or finish
 the attribute when the stack is exhausted (the root is always last) -/
-def afterClose (st : St) (key : Option Str) (startIdx : Nat) (rest norm : Str) (stack : List Frame) :
+def afterClose (attrs : List Attr) (key : Option Str) (startIdx : Nat) (rest norm : Str) (stack : List Frame) :
     Outcome :=
   match stack with
   | [root] =>
     if root.kind = .simple ∧ !root.entries.isEmpty then
-      .next { rest := rest, norm := norm, attrs := st.attrs ++ [finishAttr key startIdx root], phase := .attr }
-    else .next { st with rest := rest, norm := norm, phase := .struct key startIdx stack }
-  | _ => .next { st with rest := rest, norm := norm, phase := .struct key startIdx stack }
+      .next { rest := rest, norm := norm, attrs := attrs ++ [finishAttr key startIdx root], phase := .attr }
+    else .next { rest := rest, norm := norm, attrs := attrs, phase := .struct key startIdx stack }
+  | _ => .next { rest := rest, norm := norm, attrs := attrs, phase := .struct key startIdx stack }
 
 def terminals (f : Frame) : List Char :=
   match f.kind with
@@ -270,7 +270,7 @@ def dictCheck (curr : Frame) (firstSpread : Bool) (rest : Str) : Except Err Str 
   else .ok rest
 
 /-- value completed: append to the frame, run the dict validations, continue -/
-def finishValue (st : St) (key : Option Str) (startIdx : Nat) (stack : List Frame) (curr : Frame)
+def finishValue (attrs : List Attr) (key : Option Str) (startIdx : Nat) (stack : List Frame) (curr : Frame)
     (parts : List Part) (rest norm : Str) : Outcome :=
   let curr' := { curr with entries := curr.entries ++ [Val.value parts] }
   match dictCheck curr (firstSpreadOf parts) rest with
@@ -279,9 +279,9 @@ def finishValue (st : St) (key : Option Str) (startIdx : Nat) (stack : List Fram
     let norm' := norm ++ consumed rest rest'
     if curr.kind = .simple then
       -- the root was popped before the value was parsed: the container loop is over
-      .next { rest := rest', norm := norm', attrs := st.attrs ++ [finishAttr key startIdx curr'],
+      .next { rest := rest', norm := norm', attrs := attrs ++ [finishAttr key startIdx curr'],
               phase := .attr }
-    else .next { st with rest := rest', norm := norm', phase := .struct key startIdx (curr' :: stack) }
+    else .next { rest := rest', norm := norm', attrs := attrs, phase := .struct key startIdx (curr' :: stack) }
 
 def prevFilterOf (parts : List Part) : Option Char :=
   match parts.getLast? with
@@ -317,11 +317,11 @@ def step (st : St) : Outcome :=
         | .error e => .fail e
         | .ok (sp, s1) =>
           let frame : Frame := { kind := .list, spread := sp, entries := [], expectsKey := false }
-          .next { st with rest := s1.drop 1, norm := norm ++ consumed s (s1.drop 1),
+          .next { rest := s1.drop 1, norm := norm ++ consumed s (s1.drop 1), attrs := st.attrs,
                           phase := .struct key startIdx (frame :: curr :: below) }
       else if nextIs "]".toList s then
         if curr.kind ≠ .list then .fail (.tse "unexpected closing bracket")
-        else afterClose st key startIdx (s.drop 1) (norm ++ [']']) (closeFrame curr below)
+        else afterClose st.attrs key startIdx (s.drop 1) (norm ++ [']']) (closeFrame curr below)
       else if nextIsAny dictOpeners s then
         match extractSpread curr.kind key false s with
         | .error e => .fail e
@@ -329,24 +329,24 @@ def step (st : St) : Outcome :=
           if curr.kind = .dict ∧ curr.expectsKey ∧ sp.isNone then .fail (.tse "dict as dict key")
           else
             let frame : Frame := { kind := .dict, spread := sp, entries := [], expectsKey := true }
-            .next { st with rest := s1.drop 1, norm := norm ++ consumed s (s1.drop 1),
-                            phase := .struct key startIdx (frame :: curr :: below) }
+            .next { rest := s1.drop 1, norm := norm ++ consumed s (s1.drop 1), attrs := st.attrs,
+                          phase := .struct key startIdx (frame :: curr :: below) }
       else if nextIs "}".toList s then
         if curr.kind ≠ .dict then .fail (.tse "unexpected closing brace")
         else
           match validatePairs curr.entries false with
           | .error e => .fail e
-          | .ok _ => afterClose st key startIdx (s.drop 1) (norm ++ ['}']) (closeFrame curr below)
+          | .ok _ => afterClose st.attrs key startIdx (s.drop 1) (norm ++ ['}']) (closeFrame curr below)
       else if nextIs ",".toList s then
         if curr.kind = .simple then .fail (.tse "unexpected comma")
         else
           let curr' := if curr.kind = .dict then { curr with expectsKey := true } else curr
-          .next { st with rest := s.drop 1, norm := norm ++ [','], phase := .struct key startIdx (curr' :: below) }
+          .next { rest := s.drop 1, norm := norm ++ [','], attrs := st.attrs, phase := .struct key startIdx (curr' :: below) }
       else if nextIs ":".toList s then
         if curr.kind ≠ .dict then .fail (.tse "unexpected colon")
         else if !curr.expectsKey then .fail (.tse "unexpected colon")
         else
-          .next { st with rest := s.drop 1, norm := norm ++ [':'],
+          .next { rest := s.drop 1, norm := norm ++ [':'], attrs := st.attrs,
                           phase := .struct key startIdx ({ curr with expectsKey := false } :: below) }
       else
         -- a plain value: the first part is parsed in this same step
@@ -359,17 +359,17 @@ def step (st : St) : Outcome :=
           | .ok (part, s', atTerm) =>
             let curr1 := if curr.kind = .simple then { curr with spread := part.spread } else curr
             let norm' := norm ++ consumed s s'
-            if atTerm then finishValue st key startIdx below curr1 [part] s' norm'
-            else .next { st with rest := s', norm := norm',
-                                 phase := .parts key startIdx below curr1 [part] }
+            if atTerm then finishValue st.attrs key startIdx below curr1 [part] s' norm'
+            else .next { rest := s', norm := norm', attrs := st.attrs,
+                          phase := .parts key startIdx below curr1 [part] }
   | .parts key startIdx stack curr parts =>
     let s := st.rest.dropWhile isWs
     let norm := st.norm ++ st.rest.takeWhile isWs
-    if s.isEmpty then finishValue st key startIdx stack curr parts s norm
-    else if !nextIsAny filterToks s then finishValue st key startIdx stack curr parts s norm
+    if s.isEmpty then finishValue st.attrs key startIdx stack curr parts s norm
+    else if !nextIsAny filterToks s then finishValue st.attrs key startIdx stack curr parts s norm
     else
       match s with
-      | [] => finishValue st key startIdx stack curr parts s norm
+      | [] => finishValue st.attrs key startIdx stack curr parts s norm
       | f :: s1 =>
         let s2 := s1.dropWhile isWs
         if f = ':' ∧ prevFilterOf parts ≠ some '|' then .fail (.tse "filter argument must follow a filter")
@@ -377,11 +377,11 @@ def step (st : St) : Outcome :=
           match parsePart curr key (some f) s2 with
           | .error e => .fail e
           | .ok (part, s', atTerm) =>
-            let curr1 := if curr.kind = .simple then { curr with spread := part.spread } else curr
+            -- only the first part sets the top-level spread (`if … and not values_parts`, fix: 2ad4442)
             let norm' := norm ++ consumed s s'
-            if atTerm then finishValue st key startIdx stack curr1 (parts ++ [part]) s' norm'
-            else .next { st with rest := s', norm := norm',
-                                 phase := .parts key startIdx stack curr1 (parts ++ [part]) }
+            if atTerm then finishValue st.attrs key startIdx stack curr (parts ++ [part]) s' norm'
+            else .next { rest := s', norm := norm', attrs := st.attrs,
+                          phase := .parts key startIdx stack curr (parts ++ [part]) }
 
 inductive Result where
   | ok (norm : Str) (attrs : List Attr)
